@@ -1,6 +1,6 @@
 module verif
 
-go 1.21
+go 1.23
 
 require (
 	github.com/philpearl/plenc v0.0.0
